@@ -1,5 +1,7 @@
 """run as a subprocess under a given PYTHONHASHSEED: reads a JSON list of matrix descriptions on stdin, prints one JSON line:
-{writer-key: [sha256 of the export of each matrix]}"""
+{writer-key: [sha256 of the export of each matrix]}
+or reads {"ms": [descriptions], "order": [[configuration key, matrix index], ...]} and makes the exports in that order (the export
+history of this process); same output, over all configurations of c14.CONFIGS"""
 import hashlib
 import json
 import os
@@ -9,15 +11,24 @@ sys.path.insert(0, os.path.dirname(os.path.dirname(os.path.abspath(__file__))))
 from lib import matrices as M  # noqa: E402
 from props import c14  # noqa: E402
 
-descs = json.load(sys.stdin)
+
+def one(d, fmt, opts):
+    try:
+        db = c14.build(d)
+        return hashlib.sha256(M.export_bytes(db, fmt, **opts)).hexdigest()
+    except Exception as e:  # noqa
+        return "EXC:" + type(e).__name__
+
+
+job = json.load(sys.stdin)
 out = {}
-for key, (fmt, opts) in c14.WRITERS.items():
-    hs = []
-    for d in descs:
-        try:
-            db = c14.build(d)
-            hs.append(hashlib.sha256(M.export_bytes(db, fmt, **opts)).hexdigest())
-        except Exception as e:  # noqa
-            hs.append("EXC:" + type(e).__name__)
-    out[key] = hs
+if isinstance(job, list):
+    for key, (fmt, opts) in c14.WRITERS.items():
+        out[key] = [one(d, fmt, opts) for d in job]
+else:
+    descs = job["ms"]
+    out = {key: [None] * len(descs) for key in c14.CONFIGS}
+    for key, k in job["order"]:
+        fmt, opts = c14.CONFIGS[key]
+        out[key][k] = one(descs[k], fmt, opts)
 print(json.dumps(out))
